@@ -31,7 +31,7 @@ impl Profile for ProxyTwin {
         }
     }
     fn gen_world(&self, rng: &mut Rng, reg: &Reg) -> WorldPlan {
-        let pool: Vec<&Entry> = reg.tagged("proxy").into_iter().filter(|e| e.spec.has_tag("regular") && e.proxy.is_some() && e.spec.custom_chain == self.custom_chain).collect();
+        let pool: Vec<&Entry> = reg.tagged("proxy").into_iter().filter(|e| (e.spec.has_tag("regular") || e.spec.has_tag("int128")) && e.proxy.is_some() && e.spec.custom_chain == self.custom_chain).collect();
         let n = rng.range(1, 3 + crate::extra_contracts()) as usize;
         let mut codes = vec![];
         let mut codes1 = vec![];
